@@ -102,13 +102,13 @@ theorem c10ok_agree (c : Cfg) (core : Ty) (l : BLeaf) (h : c10ok core l = true) 
   cases core <;> cases l <;> simp [c10ok] at h <;>
     first
     | (simp [valCoreG, textSem, binSem]; done)
-    | (simp [valCoreG, textSem, binSem, textLeaf, leafText, textScalarVal, valLeaf, leafPrim, visitPrim, Prim.asInt,
+    | (simp [valCoreG, textSem, binSem, textLeaf, leafText, textScalarVal, valLeaf, u16Leaf, leafPrim, visitPrim, Prim.asInt,
         toI64_fmtInt _ h]; done)
-    | (simp [valCoreG, textSem, binSem, textLeaf, leafText, textScalarVal, valLeaf, leafPrim, visitPrim, Prim.asInt,
+    | (simp [valCoreG, textSem, binSem, textLeaf, leafText, textScalarVal, valLeaf, u16Leaf, leafPrim, visitPrim, Prim.asInt,
         toU64_fmtNat _ h]; done)
-    | (simp [valCoreG, textSem, binSem, textLeaf, leafText, textScalarVal, valLeaf, leafPrim, visitPrim]; done)
+    | (simp [valCoreG, textSem, binSem, textLeaf, leafText, textScalarVal, valLeaf, u16Leaf, leafPrim, visitPrim]; done)
     | (rename_i b; cases b <;>
-        simp [valCoreG, textSem, binSem, textLeaf, leafText, textScalarVal, valLeaf, leafPrim, visitPrim, Scalar.toBool])
+        simp [valCoreG, textSem, binSem, textLeaf, leafText, textScalarVal, valLeaf, u16Leaf, leafPrim, visitPrim, Scalar.toBool])
 
 /-- a key that means the same in both formats: a string, or a token id the resolver knows under a name
 that the Windows-1252 decoding leaves unchanged (ASCII identifiers). -/
